@@ -136,7 +136,8 @@ class SpectralDensity(DFunction, UnitsManaged):
             self.lim_omega = numpy.zeros(2)
             
             if values is not None:
-                self.params = params
+                # the object keeps its own list of its own dictionaries
+                self.params = [dict(p) for p in params]
                 self.data = values
                 self.lamb = 0.0
                 for p in self.params:
@@ -646,7 +647,9 @@ class SpectralDensity(DFunction, UnitsManaged):
         newpars = []
         for prms in self.params:
             
-            #params = self.params.copy()
+            # work with a copy: the stored parameters are not changed by 
+            # a request for another temperature
+            prms = dict(prms)
             if temperature is not None:
                 prms["T"] = temperature
     
